@@ -5,4 +5,5 @@ import "fv/internal/core"
 // Registry maps property ids to their checks.
 var Registry = map[string]func(*core.Ctx){
 	"C01": C01,
+	"C06": C06,
 }
